@@ -253,3 +253,15 @@ Fixpoint c02_prompt_from (c : vconfig) (a : c10_acc) (tr : list fstep) : bool :=
   end.
 
 Definition c02_prompt (c : vconfig) (tr : list fstep) : bool := c02_prompt_from c c10_acc0 tr.
+
+(* ---- the form of c02_timer_ok that is a theorem of every model trace (Conn/C02_Step.v): the recovery-pipe
+   timer was idle before the poll.  (A pipe timer armed by a poll that then blocked on the transport is kept -
+   next_timer_to_poll clears it only when the transport is writable - and makes the NEXT poll's sleep earlier than
+   the earliest timer of the fingerprint once recovery is over: a harmless early wake-up, refutation witness
+   c02_timer_ok_stale_pipe_refuted.) ---- *)
+Definition pipe_idle (f : vfp) : bool :=
+  match f_t_recovery_pipe f with None => true | Some _ => false end.
+
+Definition c02_timer_ok_g (c : vconfig) (st : fstep) : bool :=
+  if pipe_idle (fs_pre st) then c02_timer_ok c st else true.
+
